@@ -84,6 +84,7 @@ type Opts struct {
 	LagClaims             bool // claim controller's cache may serve stale claims
 	LagComposed           bool // the engine cache may serve stale composed resources
 	LagManual             bool // ... and lags until the environment lets it catch up (instead of per read)
+	LagXRs                bool // the cache may serve stale XRs (to the claim controller as well)
 	DefaultCompositionRef bool
 }
 
@@ -399,6 +400,9 @@ func (w *W) NewProcess() {
 	var lag []schema.GroupKind
 	if w.Opts.LagClaims && w.Opts.Claims {
 		lag = append(lag, ClaimGVK.GroupKind())
+	}
+	if w.Opts.LagXRs {
+		lag = append(lag, XRGVK.GroupKind())
 	}
 	if w.Opts.LagComposed {
 		for _, g := range ComposedGVKs {
